@@ -36,6 +36,37 @@ fn scalar(rng: &mut Rng, tag: &mut u64) -> Value {
     }
 }
 
+/// a harness-defined input plugin that expands some queries: those whose canonical text has an even hash become two
+/// copies marked "half": 1 and 2, the others stay as they are
+struct Splitter {}
+
+fn splits(q: &Value) -> bool {
+    q.is_object() && hash_str(&canon(q)) % 2 == 0
+}
+
+fn split_reference(q: &Value) -> Vec<Value> {
+    if splits(q) {
+        (1..=2)
+            .map(|h| {
+                let mut c = q.clone();
+                c["half"] = json!(h);
+                c
+            })
+            .collect()
+    } else {
+        vec![q.clone()]
+    }
+}
+
+impl InputPlugin for Splitter {
+    fn process(&self, input: &mut Value) -> Result<(), routee_compass::plugin::input::InputPluginError> {
+        if splits(input) {
+            *input = Value::Array(split_reference(input));
+        }
+        Ok(())
+    }
+}
+
 struct Case {
     query: Value,
     expected: Vec<Value>,
@@ -212,6 +243,30 @@ pub fn run(tier: Tier, seed: u64) -> MonOut {
                 }
             }
         }
+        // (3) a second expanding plugin behind grid search (the extension point CompassAppBuilder::add_input_plugin): it
+        // splits some of the generated queries in two and leaves the others as they are, so the pipeline has to
+        // flatten a mixture of expanded and untouched elements
+        let plugins2: Vec<Arc<dyn InputPlugin>> = vec![Arc::new(GridSearchPlugin {}), Arc::new(Splitter {})];
+        let with_second = rng.chance(0.3);
+        let expected2: Vec<Value> = if with_second { case.expected.iter().flat_map(split_reference).collect() } else { vec![] };
+        match if with_second { catch(|| apply_input_plugins(&case.query, &plugins2)) } else { Ok(Ok(vec![])) } {
+            Err(p) => {
+                rep.violate(&format!("C17|apply_input_plugins+second-expander|{}", panic_sig(&p)), format!("panicked: {p}"), || json!({"query": case.query}));
+                return;
+            }
+            Ok(Err(e)) => {
+                rep.violate("C17|apply_input_plugins+second-expander|error", format!("pipeline refused a well-formed query: {}", e), || json!({"query": case.query}));
+                return;
+            }
+            Ok(Ok(_)) if !with_second => {}
+            Ok(Ok(v)) => {
+                let case2 = Case { query: case.query.clone(), expected: expected2, axes: case.axes.clone() };
+                if !compare(rep, "apply_input_plugins+second-expander", &case2, &v) {
+                    return;
+                }
+                rep.count("queries_after_second_expander", v.len() as u64);
+            }
+        }
         rep.count("generated_queries", case.expected.len() as u64);
         rep.max("max_product", case.expected.len() as u64);
         rep.seen("axis_counts", case.axes.len().to_string());
@@ -222,7 +277,7 @@ pub fn run(tier: Tier, seed: u64) -> MonOut {
     });
     MonOut {
         report: rep,
-        rule: "random query objects with 0..8 other fields (scalars and nested objects) and a grid section of 1..6 array axes of length 1..5 holding scalars of every JSON type, nested arrays (as scalar choices), objects with axis-private keys, or mixtures, plus non-array entries, in shuffled key order, the section at a random position, axes occasionally named like an existing field; 10 % of the queries have no grid section. run through GridSearchPlugin::process and through apply_input_plugins. non-trivial = at least two axes of length >= 2; distinct by canonical query".into(),
+        rule: "random query objects with 0..8 other fields (scalars and nested objects) and a grid section of 1..6 array axes of length 1..5 holding scalars of every JSON type, nested arrays (as scalar choices), objects with axis-private keys, or mixtures, plus non-array entries, in shuffled key order, the section at a random position, axes occasionally named like an existing field; 10 % of the queries have no grid section. run through GridSearchPlugin::process, through apply_input_plugins, and through apply_input_plugins with a second, harness-defined expanding plugin behind grid search that splits about half of the generated queries in two. non-trivial = at least two axes of length >= 2; distinct by canonical query".into(),
         assumptions: vec![
             "the reference is a nested-loop (odometer) product over the generator's own axis list".into(),
             "object choices use keys private to their axis: the outcome of colliding merges is not defined by the statement".into(),
